@@ -270,20 +270,34 @@ def r5(ctx):
     ctx.touch(rs)
     ctx.check(any(callee_matches(t, r"sync::Capability::secret_key$") and t["d"]["l"] == 0 for _, t in rs.calls()), "C07.R5", rs.path, "delegates", "Replica::secret_key = info.capability.secret_key()", rs.sp)
     ens = Ensures(f, r"sync::(Capability|Replica::<.*>)::secret_key$")
+    def guarded(x, bi):
+        for gbi, gt in x.calls():
+            if ens.is_guard_call(gt, 3):
+                e = call_outcomes(x, gbi).get("Ok")
+                if e and x.edge_dominates(e[0], e[1], bi):
+                    return True
+        return False
+
+    def site_guarded(x, bi, depth=3):
+        """the site runs only after secret_key() succeeded: in its own body, or at every call site of the helper it lives in"""
+        if guarded(x, bi):
+            return True
+        if depth <= 0:
+            return False
+        fn = x
+        while fn.kind not in ("fn", "assoc_fn") and fn.parent in f.bodies:
+            fn = f.bodies[fn.parent]
+        callers = [(cb2, cbi) for cb2, cbi, ct in f.callers().get(fn.path, []) if cb2.path != fn.path]
+        return bool(callers) and all(site_guarded(cb2, cbi, depth - 1) for cb2, cbi in callers)
     for name in ("insert", "delete_prefix"):
-        cb = f.body("sync::Replica::<'a, I>::%s::{closure#0}" % name)
+        root = "sync::Replica::<'a, I>::%s" % name
+        cb = f.body(root + "::{closure#0}")
         ctx.touch(cb)
-        ie = [(bi, t) for bi, t in cb.calls() if t["f"].get("name") == "insert_entry"]
-        ok = len(ie) == 1
-        if ok:
-            ok = False
-            for gbi, gt in cb.calls():
-                if ens.is_guard_call(gt, 3):
-                    oc = call_outcomes(cb, gbi)
-                    e = oc.get("Ok")
-                    if e and cb.edge_dominates(e[0], e[1], ie[0][0]):
-                        ok = True
-        ctx.check(ok, "C07.R5", cb.path, "store-reached-only-with-secret-key", "insert_entry is dominated by the Ok edge of a call that succeeds only with the secret key: a read-only replica returns before any store call", cb.sp)
+        sites = [(x, bi) for x in f.local_callees(root, depth=2, prefix="sync::Replica") for bi, t in x.calls()
+                 if t["f"].get("name") == "insert_entry" and x.path != "sync::Replica::<'a, I>::insert_entry"]
+        ok = bool(sites) and all(site_guarded(x, bi) for x, bi in sites)
+        ctx.check(ok, "C07.R5", cb.path, "store-reached-only-with-secret-key",
+                  "insert_entry (%d site(s), in %s) is dominated by the Ok edge of a call that succeeds only with the secret key: a read-only replica returns before any store call" % (len(sites), sorted({x.path for x, _ in sites})), cb.sp)
     ctx.floor("C07.R5", 4)
 
 
